@@ -2,8 +2,8 @@
    They describe /repo after commits 329a134 (persistable keys, stale temp files
    removed, escape-aware label walk) and dba5ede (the refresh parses downloads only). *)
 From Coq Require Import Permutation.
-From Sdns Require Import Common.Base Gen.C18 C18.Model C18.Spec
-  C18.Proofs_match C18.Proofs_disk C18.Proofs_reload C18.Proofs_final C18.Proofs_equiv C18.Proofs_refresh C18.Proofs_walk C18.Proofs_examples C18.Proofs_fault C18.Proofs_allsteps C18.Proofs_spelling C18.Ack C18.Proofs_ack C18.Proofs_listed C18.Proofs_whole.
+From Sdns Require Import Common.Base Common.GoList Gen.C18 C18.Model C18.Spec
+  C18.Proofs_match C18.Proofs_disk C18.Proofs_reload C18.Proofs_final C18.Proofs_equiv C18.Proofs_refresh C18.Proofs_walk C18.Proofs_examples C18.Proofs_fault C18.Proofs_allsteps C18.Proofs_spelling C18.Ack C18.Proofs_ack C18.Proofs_listed C18.Proofs_whole C18.Proofs_maps.
 Open Scope N_scope.
 
 (* Matching is exact on whole labels, case-insensitive, whitelist first: for every
@@ -404,6 +404,33 @@ Theorem listed_end_to_end : forall wl l0 ops s q,
      (bl_exists (start (s_local s)) (present q) = true <-> blocks lo (fold_name q))).
 Proof. exact listed_end_to_end_lemma. Qed.
 Print Assumptions listed_end_to_end.
+
+(* matchHierarchy and BlockList.Exists are tied to the source by TRANSLATION (srcgen: Go maps as
+   association lists, the struct's three map fields in T_BlockList): on maps that hold true for
+   every key — all the code ever stores ([amap]) — the translated functions are the model's, for
+   every name, every list and every fuel above the length of the (canonical) name; the other
+   fields of the BlockList play no role.  nextDot was translated before (walk_follows_next_dot). *)
+Theorem matchHierarchy_is_translated : forall (name : str) (l : list str) fuel, (length name < fuel)%nat ->
+  go_matchHierarchy fuel name (amap l) = Some (match_hierarchy name l).
+Proof. exact gen_matchHierarchy. Qed.
+Print Assumptions matchHierarchy_is_translated.
+
+Theorem Exists_is_translated : forall (B : T_BlockList) (m wi w : list str) (key0 : str) fuel,
+  T_BlockList_m B = amap m -> T_BlockList_wild B = amap wi -> T_BlockList_w B = amap w ->
+  (length (canonical key0) < fuel)%nat ->
+  go_BlockList_Exists fuel B key0 = Some (bl_exists (mk_bl m wi w) key0).
+Proof. exact gen_BlockList_Exists. Qed.
+Print Assumptions Exists_is_translated.
+
+(* ... hence exists_spec holds of the Go function as srcgen reads it from blocklist.go *)
+Theorem translated_exists_spec : forall (B : T_BlockList) (M W Wl : list name) (q : name) fuel,
+  Forall wireP M -> Forall wireP W -> Forall wireP Wl -> wireP q ->
+  T_BlockList_m B = amap (map present M) -> T_BlockList_wild B = amap (map present_suffix W) ->
+  T_BlockList_w B = amap (map present Wl) ->
+  (length (canonical (present q)) < fuel)%nat ->
+  (go_BlockList_Exists fuel B (present q) = Some true <-> blocked_spec M W Wl (fold_name q)).
+Proof. exact translated_exists_spec_lemma. Qed.
+Print Assumptions translated_exists_spec.
 
 (* ABOUT THE PROPOSED CODE (props/C18/fix.patch, on offer for the finding
    blocklist-entry-spelling; NOT in /repo): with canonicalKey — as a function on names
